@@ -14,10 +14,34 @@ func Discharge(r *FuncResult, o *Obligation, work string, timeoutS, seed int, mo
 		o.Result = SolverResult{Status: "unsat", Solver: "simplifier"}
 		return
 	}
-	hyps := append([]*Term{}, r.Hyps[:o.NHyps]...)
-	hyps = append(hyps, o.PC, p.Not(splitIff(p, o.Goal)))
+	all := r.Hyps[:o.NHyps]
+	goalNeg := p.Not(splitIff(p, o.Goal))
+	// first attempt: only the hypotheses in the cone of influence of the goal (dropping hypotheses can
+	// only make a proof harder, never unsound); second attempt: everything
+	pruned := coneOfInfluence(r, all, []*Term{o.PC, goalNeg})
+	var res SolverResult
+	if len(pruned) < len(all)*3/4 {
+		hyps := append(append([]*Term{}, pruned...), o.PC, goalNeg)
+		script := p.Script(hyps, o.Name+" (cone of influence)\n"+o.Text)
+		short := timeoutS
+		if short > 10 {
+			short = 10
+		}
+		res = Solve(work, o.Name+".coi", script, short, seed, "race")
+		if res.Status == "unsat" && mode != "race" {
+			// thorough tier: confirm with the agreement rule on the same reduced query
+			res = Solve(work, o.Name+".coi", script, timeoutS, seed, mode)
+		}
+		if res.Status == "unsat" {
+			o.Result = res
+			o.Result.Solver += "/coi"
+			o.Status = "discharged"
+			return
+		}
+	}
+	hyps := append(append([]*Term{}, all...), o.PC, goalNeg)
 	script := p.Script(hyps, o.Name+"\n"+o.Text)
-	res := Solve(work, o.Name, script, timeoutS, seed, mode)
+	res = Solve(work, o.Name, script, timeoutS, seed, mode)
 	o.Result = res
 	if res.Status == "unsat" {
 		o.Status = "discharged"
@@ -132,4 +156,79 @@ func hasQuant(t *Term) bool {
 		}
 	}
 	return false
+}
+
+var weakSymbols = map[string]bool{"dtype": true, "refkind": true, "strlen": true, "lexrank": true, "bcontent": true}
+
+func termSymbols(t *Term, memo map[*Term]map[string]bool) map[string]bool {
+	if s, ok := memo[t]; ok {
+		return s
+	}
+	out := map[string]bool{}
+	var rec func(x *Term)
+	seen := map[*Term]bool{}
+	rec = func(x *Term) {
+		if seen[x] {
+			return
+		}
+		seen[x] = true
+		if (x.Op == "var" || x.Op == "uf") && !weakSymbols[x.Name] && !strings.HasPrefix(x.Name, "$A") && !strings.HasPrefix(x.Name, "new$") {
+			out[x.Name] = true
+		}
+		for _, a := range x.Args {
+			rec(a)
+		}
+	}
+	rec(t)
+	memo[t] = out
+	return out
+}
+
+// coneOfInfluence selects the hypotheses connected to the goal through shared symbols (transitively).
+func coneOfInfluence(r *FuncResult, hyps []*Term, goal []*Term) []*Term {
+	r.symMu.Lock()
+	if r.symMemo == nil {
+		r.symMemo = map[*Term]map[string]bool{}
+	}
+	syms := make([]map[string]bool, len(hyps))
+	for i, h := range hyps {
+		syms[i] = termSymbols(h, r.symMemo)
+	}
+	have := map[string]bool{}
+	for _, g := range goal {
+		for s := range termSymbols(g, r.symMemo) {
+			have[s] = true
+		}
+	}
+	r.symMu.Unlock()
+	in := make([]bool, len(hyps))
+	for changed := true; changed; {
+		changed = false
+		for i := range hyps {
+			if in[i] {
+				continue
+			}
+			hit := len(syms[i]) == 0
+			for s := range syms[i] {
+				if have[s] {
+					hit = true
+					break
+				}
+			}
+			if hit {
+				in[i] = true
+				changed = true
+				for s := range syms[i] {
+					have[s] = true
+				}
+			}
+		}
+	}
+	var out []*Term
+	for i, h := range hyps {
+		if in[i] {
+			out = append(out, h)
+		}
+	}
+	return out
 }
